@@ -617,6 +617,10 @@ def gen_malformed(rng):
 # ------------------------------------------------------------------ items
 
 def make_item(iid, fs, args, kind, tags):
+    items, tail = unroll(args)
+    if tail != NIL and any(x[0] == "rat" for x in items):
+        # rationals are written through the helper's marker, which needs a proper list
+        args = L([I(x[1]) if x[0] == "rat" else x for x in items], tail)
     return {"id": iid, "fs": fs, "args": args, "kind": kind, "tags": tags}
 
 
